@@ -234,6 +234,20 @@ def flatten_class(steps, style):
     return best, 'must-hold'
 
 
+def backstep_then_overlap(steps):
+    """Input class (property of the printed step ranges): a non-final run that printed rows ends below the highest
+    step printed before it, and a later run prints a step at or below that highest step (0-1000, 200-600, 600-1400:
+    a restart from an earlier checkpoint that is carried on past the end of the first attempt)."""
+    steps = [S for S in steps if len(S) > 0]
+    top = None
+    for k, S in enumerate(steps):
+        if top is not None and k < len(steps) - 1 and max(S) < top:
+            if any(min(T) <= top for T in steps[k + 1:]):
+                return True
+        top = max(S) if top is None else max(top, max(S))
+    return False
+
+
 def int_printed_later(runs):
     """Input class for flatten('last'), per column: the names of the columns that are printed as whole numbers
     only in a run k >= 1 while another run that takes part in the merge cannot be represented in an integer
